@@ -85,6 +85,43 @@ def validate(ctx, code, pat, ms, kind):
                      bindings={k: getattr(v, 'id', '?') for k, v in m.symbol_table.items()})
 
 
+PRIOR_PATS = [None, "def _f_(_a_, _b_):\n    return _a_ * _b_", "class __Meta__:\n    pass", "def __init__(self):\n    pass",
+              "_x_ = 0", "import random"]
+AFTER_PROGS = ["import math", "import os.path as osp", "from random import randint",
+               "try:\n    x = int(s)\nexcept ValueError as oops:\n    x = 0", "def f(a, b):\n    return a * b",
+               "class Point:\n    pass", "total = 5", "for i in items:\n    total = total + i"]
+AFTER_PATS = ["import random", "import math", "import os.path as p2", "from random import choice", "from math import randint",
+              "try:\n    ___\nexcept ValueError as problem:\n    ___", "def g(a, b):\n    return a * b", "class Line:\n    pass",
+              "count = 5", "for j in items:\n    ___"]
+
+
+def body_after_pattern(ctx):
+    """What a search finds does not depend on which patterns were searched for before (in the same process, on
+    another submission): one search with a definition/class/other pattern, then the judged search."""
+    prior = PRIOR_PATS[ctx.choose(len(PRIOR_PATS), 'searched-before')]
+    code = AFTER_PROGS[ctx.choose(len(AFTER_PROGS), 'program')] + "\n"
+    pat = AFTER_PATS[ctx.choose(len(AFTER_PATS), 'pattern')]
+    ctx.observe(repr((prior, code, pat)))
+    ctx.set_sample({'searched_before': prior, 'program': code, 'pattern': pat})
+    if prior is not None:
+        cmds.clear_report()
+        cmds.contextualize_report("def f(a, b):\n    return a * b\nclass Point:\n    pass\nscore = 0\nimport random\n")
+        ctx.step(('find_matches', prior))
+        find_matches(prior)
+    cmds.clear_report()
+    cmds.contextualize_report(code)
+    ctx.step('find_matches')
+    try:
+        ms = find_matches(pat)
+    except Exception as e:
+        ctx.fail({'symptom': 'find_matches raised', 'exception': type(e).__name__}, program=code, pattern=pat)
+        return
+    if prior is not None:
+        ctx.mark_nontrivial(repr((prior, code, pat)))
+    ctx.outcome('matches:%d' % min(len(ms), 3))
+    validate(ctx, code, pat, ms, 'after another pattern')
+
+
 def make_alphabet(stms, max_len, pool, load_routes=True):
     def body(ctx):
         n = ctx.choose(max_len, 'n') + 1
@@ -346,6 +383,8 @@ def phases(tier):
                 describe='program x derived patterns mutated by one concrete edit (must not match)'),
           Phase('ordered-multi', make_ordered(4 if tier == 'quick' else 5), setup=_setup, chunk=400,
                 describe='3-statement patterns with shared placeholders x programs of <=4/5 similar statements')]
+    ph.append(Phase('after-another-pattern', body_after_pattern, setup=_setup, chunk=50,
+                    describe='a search made after a search with a definition / class / import pattern on another submission'))
     ph.append(Phase('sub-matches', make_submatch(), setup=_setup, chunk=400,
                     describe='pattern matched below a node bound by an earlier match / continued with use_previous'))
     if tier == 'thorough':
